@@ -1091,7 +1091,7 @@ pub fn families(tier: &str) -> Vec<Box<dyn Family>> {
     // C02's families 1..=6 (type expressions x positions, enumerator values, integer spellings, string arguments,
     // attribute forms x positions, module-less files); quick: about 600 evenly spaced cases of each
     for (i, f) in crate::model::families::program_families(tier).into_iter().enumerate() {
-        if (1..=6).contains(&i) {
+        if (1..=6).contains(&i) || f.name().starts_with("vocabulary") {
             let stride = if tier == "quick" { (f.len() / 600).max(1) } else { 1 };
             v.push(Box::new(FromPrograms { inner: f, stride }));
         }
